@@ -233,7 +233,7 @@ SESSIONS = [("initialize", "initialized", "doc_note", "request", "unknown_req", 
 
 def worker_prefix(args):
     """fault enumeration: every byte prefix of a session followed by end-of-input"""
-    si, shard, nshards = args
+    si, shard, nshards, open_ids = args
     binpath = server_bin("rel"); part = Part()
     seq = SESSIONS[si]
     frames = [frame(msg(k, i)) for i, k in enumerate(seq, 1)]
@@ -251,7 +251,7 @@ def worker_prefix(args):
             if res[0] == "hang": part.fail("session %d cut after %d bytes: %s" % (si, cut, res[1]), sc); continue
             if res[0] == "busy": part["inconclusive"].append("prefix %d/%d: %s" % (si, cut, res[1])); continue
             got = responses(r.msgs)
-            if erc == 1:
+            if erc == 1 and "K-C18-1" in open_ids:
                 ok = len(got) <= len(exp) and all(g[0] == e[0] and g[1] in e[1] for g, e in zip(got, exp))   # K-C18-1 territory (single write, exit outside shutdown)
             else:
                 ok = r.torn is None and len(got) == len(exp) and all(g[0] == e[0] and g[1] in e[1] for g, e in zip(got, exp))
@@ -295,13 +295,20 @@ def run(ctx):
             if n < 2 or r.torn: seen += 1
         if seen: ctx.known("K-C18-1", "responses queued when `exit` arrives outside the shutdown phase are dropped or torn (witness: initialize, request, exit in one write: %d of 20 runs lost a response)" % seen)
         else: ctx.extra["witness_K-C18-1"] = "not reproduced in 20 runs (schedule dependent)"
+    else:
+        # repaired (see known_findings.json): the witness is a regression test
+        for k in range(20):
+            r = Run(binpath); r.write(frame(msg("initialize", 1)) + b"".join(frame(msg("request", i)) for i in range(2, 2 + 3 * k)) + frame(msg("exit", 99))); res = r.finish(); got = responses(r.msgs); r.kill(); ctx.count()
+            if len(got) != 1 + 3 * k or r.torn or res[:2] != ("exit", 1):
+                ctx.violation("initialize, %d requests and exit in one write: %d responses%s, %r (every request must be answered before the process ends with status 1)" % (3 * k, len(got), " + torn frame" if r.torn else "", res[:2]),
+                              {"kind": "sequence", "sequence": ["initialize"] + ["request"] * (3 * k) + ["exit"], "schedule": "pipelined"})
     maxlen = 4 if ctx.quick else 6
     sample = (3, .2, 20) if ctx.quick else (5, .25, 200)     # beyond length sample[0] only a fraction of the sequences (all of them up to it)
     jobs = [(i, NCPU, maxlen, ["lock-step", "pipelined"], sample, ctx.seed, open_ids) for i in range(NCPU)]
     for p in pmap(worker_seqs, jobs): ctx.merge(p)
     for p in pmap(worker_bursts, [(i, NCPU, 100 if ctx.quick else 300, ctx.seed) for i in range(NCPU)]): ctx.merge(p)
     ns = 2 if ctx.quick else len(SESSIONS)
-    for p in pmap(worker_prefix, [(si, sh, 8) for si in range(ns) for sh in range(8)]): ctx.merge(p)
+    for p in pmap(worker_prefix, [(si, sh, 8, open_ids) for si in range(ns) for sh in range(8)]): ctx.merge(p)
     part = Part(); stdin_open_exit(part, binpath, open_ids); ctx.merge(part)
     c = ctx.extra.get("counters", {})
     ctx.extra["exhaustive_part"] = {"alphabet": ALPHA, "complete_up_to_length": sample[0], "sampled_fraction_beyond": sample[1], "max_length": maxlen,
